@@ -27,12 +27,24 @@ the situation of `consistent_concurrent`, `concurrent_equals_sequential`, `resto
 store of the sequential model (`sequential_is_concurrent`).  Direct oracle there: every snapshot listed at any point (or stored before) is restored
 exactly by its owner at every later point of the execution (`conc:listed-snapshot-not-restored-exactly`); a snapshot object is
 never stored before one of its chunks (`conc:referenced-chunk-missing`); no overlapping command fails.
+A fourth stream (`impl/c02_listing.py`) runs delete / clean over a LISTING THAT FAILS OR IS SILENTLY PARTIAL: histories on the REAL
+local backend (a scratch directory) and on the memory backends, then (command, listing fault) pairs from one saved state — `os.scandir`
+/ `os.listdir` of one repository directory (top `snapshots` / `data`, every `snapshots/xx`, `data/xx`, `data/xx/yy`) raising EACCES /
+EIO / ESTALE / ENOENT once or always, its iteration raising after k entries, an entry's type test raising, the directory REALLY made
+unreadable (chmod 000, command run under an unprivileged uid), `list_files` of the memory backend raising when called / after k names.
+Tie: `repolist.step` (ReplicatModel/RepoListing.lean, `stepL` with the propagation flags extracted from the source on this run:
+`consistent_under_listing_faults`, `stored_snapshot_restores_after_listing_fault`, `local_listing_fault_safe_partial`,
+`local_delete_any_listing_fault_safe`; witnesses `sublisting_delete_damages`, `sublisting_clean_damages`,
+`top_directory_swallow_damages` = finding D20).  Direct oracle: whatever the command's outcome, every snapshot object still stored
+restores exactly with its owner's key (`history:listing-fault:remaining-snapshot-damaged:<command>:<where>`) and references only
+stored chunks (`history:listing-fault:referenced-chunk-missing:<command>:<where>`).
 """
 import asyncio
 import json
 import os
 
 from ..common import rng_for
+from ..impl import c02_listing as L
 from ..impl import histx as X
 from ..impl import history as H
 from ..impl import runner as R
@@ -40,6 +52,7 @@ from ..impl.world import World
 
 ORACLES = {'c02'}
 EXTRA = [X.c02_oracles]
+listing_case = L.listing_case     # run through `pmap` (looked up by name in this module)
 
 
 def _with_pid(arg):
@@ -329,11 +342,12 @@ def run(out, drv, info):
                 '(owner + 0–3 of clone/shared/independent) × ' + str(n_ops) + ' operations from {snapshot of a file set built from shared blocks (paths appear/change/disappear, '
                 'repeat of the previous data), delete of own / another user\'s / unknown snapshots, clean, orphan injection}; '
                 'non-trivial = contains a successful delete or clean while ≥ 2 snapshot objects share ≥ 1 chunk; distinct = hash of (config, users, op kinds); '
-                'plus deep histories (36 / 80 operations, 74 % snapshots, concurrency 1–2, ≥ 2 keys: repositories with more snapshot objects than 10–25 × the client\'s connections); plus overlapping-snapshot cases (two real snapshot coroutines interleaved), non-trivial = the two file sets share a block; plus overlapping-command cases call by call (2–4 real snapshot coroutines of several users, pools of 1–5 workers, every backend call gated and released by one of 6 scheduling styles, 0–2 snapshots stored before, a reader issuing list / list-files / restore during the execution and restoring every listed snapshot at the end), non-trivial = the calls of different commands alternate ≥ k times and ≥ 1 read happens while snapshots are running; plus ALL histories up to length 2 (quick) / 3 (thorough) and a sample of length 4 over the alphabet {snapshot A, snapshot B, delete oldest own, delete newest own, clean} × 2 users in four key graphs (shared, independent, clone, unencrypted), non-trivial = ≥ 2 snapshots and a delete or clean; plus commands cut short at the k-th backend mutation (delete / clean / snapshot), non-trivial = really interrupted after ≥ 1 mutation; plus restore-tie cases (real restore vs model restore per (user, snapshot) pair)')
+                'plus deep histories (36 / 80 operations, 74 % snapshots, concurrency 1–2, ≥ 2 keys: repositories with more snapshot objects than 10–25 × the client\'s connections); plus overlapping-snapshot cases (two real snapshot coroutines interleaved), non-trivial = the two file sets share a block; plus overlapping-command cases call by call (2–4 real snapshot coroutines of several users, pools of 1–5 workers, every backend call gated and released by one of 6 scheduling styles, 0–2 snapshots stored before, a reader issuing list / list-files / restore during the execution and restoring every listed snapshot at the end), non-trivial = the calls of different commands alternate ≥ k times and ≥ 1 read happens while snapshots are running; plus ALL histories up to length 2 (quick) / 3 (thorough) and a sample of length 4 over the alphabet {snapshot A, snapshot B, delete oldest own, delete newest own, clean} × 2 users in four key graphs (shared, independent, clone, unencrypted), non-trivial = ≥ 2 snapshots and a delete or clean; plus commands cut short at the k-th backend mutation (delete / clean / snapshot), non-trivial = really interrupted after ≥ 1 mutation; plus restore-tie cases (real restore vs model restore per (user, snapshot) pair); plus listing-fault cases: a history of 2–5 snapshots by 1–4 users on the REAL local backend (60 %) or a memory backend, then 5–7 (quick) / ≤ 32 (thorough: every unscannable snapshot directory × errno first) pairs (delete of own snapshots | clean by a user of any key relation) × (scan fault: directory level top / sub, area snapshots / data, kind open / after k entries / entry type test / real chmod 000 under an unprivileged uid / backend listing raises when called or after k names, errno EACCES / EIO / ESTALE / ENOENT, transient / persistent), each from the same saved repository state, non-trivial = the fault was met by the command in the snapshot area and hides ≥ 1 stored snapshot of the command user\'s own key family')
     out.assumptions = ['ideal cryptography: digest = content id, MAC names injective per key family (DESIGN.md §4)',
                        'destructive commands (delete, clean) do not overlap with other commands (README)',
                        'unencrypted repository = one family (no keys)',
-                       'CPython, asyncio, cryptography, hashlib; memory backend with the Backend interface']
+                       'CPython, asyncio, cryptography, hashlib; memory backend with the Backend interface',
+                       'listing faults: one directory (or one listing call) fails per command; an injected ENOENT for the TOP directory of an area is not a fault (a repository without that directory is a state); the scan-fault interposer (os.scandir / os.listdir) and the uid switch are trusted']
     X.run(out, drv, 'C02', n_hist, n_ops, ORACLES, H.nontrivial, EXTRA)
     # deep histories: many snapshot objects per client connection (more than any window / batch sized from --concurrent), several keys
     X.run(out, drv, 'C02-deep', 16 if quick else 160, 36 if quick else 80, ORACLES, H.nontrivial, EXTRA)
@@ -375,6 +389,10 @@ def run(out, drv, info):
             out.violation(sig, what, dict(rp, kind='restore-tie', seed=out.seed, idx=res['idx']))
         if drv is not None:
             check_restore_tie(res, drv, out)
+    # destructive commands over a listing that fails or is silently partial (real local backend + memory backends, every fault position)
+    n_ls = 40 if quick else 300
+    for res in pmap('listing_case', [(out.seed, i, out.tier) for i in range(n_ls)]):
+        L.account(res, out, drv)
 
 
 def check_crash_tie(res, drv, out):
@@ -446,6 +464,8 @@ def _replay(path, drv):
         for dd in c.d:
             print('disagreement', dd)
         return 1 if (res['violations'] or bad) else 0
+    if rp.get('kind') == 'listing':
+        return L.replay_listing(rp, drv)
     if rp.get('kind') == 'restore-tie':
         res = restore_tie_case((rp.get('seed', 0), rp['idx']))
         print('summary', res['summary'])
